@@ -238,6 +238,9 @@ def _arm_lines(path, funcs=None):
     try:
         with open(path) as f:
             src = f.read()
+        if path.endswith(".pyx"):
+            from . import pyxemu
+            src = pyxemu.translate(src)      # same text (and line numbers) the emulated code objects were compiled from
         tree = ast.parse(src)
     except Exception:
         return {}
